@@ -277,8 +277,9 @@ def write_replay(engine_name, v, sc, choices, res, stats):
         'steps': res['steps'] if res else None,
         'minimisation': stats,
     }
-    path = os.path.join(VERIF, 'replays', '%s-%s-%d.json' % (
-        v['property'], v['class'], v['seed']))
+    variant = (v.get('sig') or {}).get('variant')
+    path = os.path.join(VERIF, 'replays', '%s-%s%s-%d.json' % (
+        v['property'], v['class'], '-' + str(variant) if variant else '', v['seed']))
     with open(path, 'w') as f:
         json.dump(doc, f, indent=1, default=_jsonable)
     return path
@@ -402,7 +403,7 @@ def run_check(prop, tier, engine_name, plan, level='exploration', extra=None):
         # one replay per (property, class), first occurrence
         seen = set()
         for v in new_violations:
-            key = (v['property'], v['class'])
+            key = (v['property'], v['class'], str((v.get('sig') or {}).get('variant')))
             if key in seen or len(seen) >= 3:
                 continue
             seen.add(key)
